@@ -175,6 +175,11 @@ func flattenHTML(evs []hEvent) *hFlat {
 				gapWS, gapBrk = false, false
 				continue
 			}
+			if len(stack) > 0 && (stack[len(stack)-1] == "select" || stack[len(stack)-1] == "optgroup") && strings.TrimLeft(e.Data, " \t\r\n\f") == "" {
+				// inter-element white space directly inside select/optgroup is never rendered (only the options are);
+				// the minifier drops it under every option set, KeepWhitespace included
+				continue
+			}
 			ctx := strings.Join(stack, ">")
 			i := 0
 			s := e.Data
